@@ -52,6 +52,16 @@ func (c *ctlContext) filter(m *ctlMeta) *ctlFilter {
 	return f
 }
 
+// ---- reusekey: an existing filter is reused when one field of the two
+// descriptions agrees, although the filter keeps the whole description.
+func (c *ctlContext) reuse(prev *ctlFilter, prevMeta, m *ctlMeta) *ctlFilter {
+	f := prev
+	if m.Flags != prevMeta.Flags {
+		f = newCtlFilter(m)
+	}
+	return f
+}
+
 // ---- cacheinputs: a per-loop cache keyed by the storage location although
 // the value also depends on the record's kind.
 func ctlCacheInputs(data []byte, n int) []string {
@@ -93,6 +103,7 @@ func CtlUse(m *ctlMeta, xs []int, data []byte) (*ctlFilter, []int, []byte) {
 	c := &ctlContext{}
 	a, _ := ctlSliceAlias(xs, 3)
 	_ = ctlCacheInputs(data, 1)
+	_ = c.reuse(nil, m, m)
 	(&ctlClosure{}).close(func(int) []int { return nil })
 	return c.filter(m), a, ctlNarrowArith(2, 3, data)
 }
